@@ -14,11 +14,15 @@ Record obs := { o_out : qm; o_W : qm; o_b : qv; o_P : qm; o_cur : option nat }.
 Definition same_rdo (s : rdo (F:=Q)) (o : obs) : bool :=
   mclose (Wout s) (o_W o) && vclose (bias s) (o_b o) && mclose (Pm s) (o_P o) && match o_cur o with Some n => cursor s =? n | None => true end.
 
+(* a call is (fails?, samples).  A train call that raises (targets forgotten, wrong target / input width) performs
+   no update: the model state, the schedule cursor included, is carried over unchanged and must still agree with
+   what is observed on the node after the exception. *)
 Fixpoint chk_calls (fwd : rdo (F:=Q) -> qv -> qv) (upd : rdo (F:=Q) -> qv -> qv -> qv -> rdo (F:=Q))
-         (k : nat) (s : rdo (F:=Q)) (calls : list (list (qv * qv))) (os : list obs) : bool :=
+         (k : nat) (s : rdo (F:=Q)) (calls : list (bool * list (qv * qv))) (os : list obs) : bool :=
   match calls, os with
   | [], [] => true
-  | c :: cs, o :: os' =>
+  | (true, _) :: cs, o :: os' => same_rdo s o && chk_calls fwd upd k s cs os'
+  | (false, c) :: cs, o :: os' =>
       let '(s1, outs) := train fwd upd k s c in
       mclose outs (o_out o) && same_rdo s1 o && chk_calls fwd upd k s1 cs os'
   | _, _ => false
@@ -26,12 +30,12 @@ Fixpoint chk_calls (fwd : rdo (F:=Q) -> qv -> qv) (upd : rdo (F:=Q) -> qv -> qv 
 
 (* RLS / FORCE(rule="rls"): fresh node, successive node.train(X_j, Y_j, learn_every=k) *)
 Definition chk_rls (has_bias : bool) (idim odim : nat) (alpha : Q) (k : nat)
-           (calls : list (list (qv * qv))) (os : list obs) : bool :=
+           (calls : list (bool * list (qv * qv))) (os : list obs) : bool :=
   chk_calls (readout_forward odim) (rls_update has_bias) k (rls_init has_bias idim odim alpha) calls os.
 
 (* LMS / FORCE(rule="lms") *)
 Definition chk_lms (sc : list Q * Q) (has_bias : bool) (idim odim : nat) (k : nat)
-           (calls : list (list (qv * qv))) (os : list obs) : bool :=
+           (calls : list (bool * list (qv * qv))) (os : list obs) : bool :=
   chk_calls (readout_forward odim) (lms_update sc has_bias) k (lms_init idim odim) calls os.
 
 (* IPReservoir.fit: one record per reservoir call, in the order the model prescribes
